@@ -572,10 +572,15 @@ func (tr tableReader) getManyAtOffsetsWithReadFunc(
 // chunks remaining will be set to false upon return. If some are not here,
 // then remaining will be true. The result offsetRecSlice is sorted in offset
 // order.
+//
+// found flags are set only once the whole walk has succeeded. A keeper block part way through would
+// otherwise leave earlier records marked found whose reads are never issued, and the caller retries
+// with the same slice (see archiveChunkSource.resolve).
 func (tr tableReader) findOffsets(reqs []getRecord, keeper keeperF) (ors offsetRecSlice, remaining bool, gcb gcBehavior, err error) {
 	filterIdx := uint32(0)
 	filterLen := uint32(len(tr.prefixes))
 	ors = make(offsetRecSlice, 0, len(reqs))
+	hits := make([]int, 0, len(reqs))
 
 	// Iterate over |reqs| and |tr.prefixes| (both sorted by address) and build the set
 	// of table locations which must be read in order to satisfy |reqs|.
@@ -612,6 +617,7 @@ func (tr tableReader) findOffsets(reqs []getRecord, keeper keeperF) (ors offsetR
 		}
 
 		// record all offsets within the table which contain the data required.
+		matched := false
 		for j := filterIdx; j < filterLen && req.prefix == tr.prefixes[j]; j++ {
 			m, err := tr.idx.entrySuffixMatches(j, req.a)
 			if err != nil {
@@ -621,21 +627,25 @@ func (tr tableReader) findOffsets(reqs []getRecord, keeper keeperF) (ors offsetR
 				if keeper != nil && keeper(*req.a) {
 					return nil, false, gcBehavior_Block, nil
 				}
-				reqs[i].found = true
 				entry, err := tr.idx.indexEntry(j, nil)
 				if err != nil {
 					return nil, false, gcBehavior_Continue, err
 				}
 				ors = append(ors, offsetRec{req.a, entry.Offset(), entry.Length()})
+				hits = append(hits, i)
+				matched = true
 				break
 			}
 		}
 
-		if !reqs[i].found {
+		if !matched {
 			remaining = true
 		}
 	}
 
+	for _, i := range hits {
+		reqs[i].found = true
+	}
 	sort.Sort(ors)
 	return ors, remaining, gcBehavior_Continue, nil
 }
